@@ -5,8 +5,9 @@ Monitors (both logical, no wall clock in the verdict):
                     behind from_iterable, in generate's condition function, in a map/do_action tap placed directly
                     after range / repeat_value / repeat); producing more than needed + 2000 elements raises the
                     harness exception BudgetExceeded(BaseException) out of the producer;
-  * step counter  - sys.monitoring LINE events (PEP 669) counted from subscribe() entry to its return; exceeding the
-                    step budget raises BudgetExceeded from the monitoring callback into the running code.
+  * step counter  - sys.monitoring (PEP 669) PY_START + JUMP events (function entries and loop back-edges) counted
+                    from subscribe() entry to its return; exceeding the step budget raises BudgetExceeded from the
+                    monitoring callback into the running code (see StepMonitor for why not LINE events).
 Everything runs on the real CurrentThreadScheduler / ImmediateScheduler in the worker's main thread.
 """
 from __future__ import annotations
@@ -26,7 +27,7 @@ ID = "C14"
 LEVEL = "exploration"
 
 SLACK = 2000               # pulls tolerated beyond what list semantics needs (DESIGN.md C14)
-STEP_BUDGET = 3_000_000    # LINE events per subscribe(); a passing shape uses < 25 000, needed + SLACK pulls < 1.5e6
+STEP_BUDGET = 1_200_000    # steps per subscribe(); measured maxima: 51 000 when subscribe() returned, 551 000 for needed + SLACK pulls
 MODEL_CAP = 400            # the list model may look at this many source elements before a draw is rejected
 MAX_NEEDED = 64
 RECURSION_LIMIT = 1000     # Python's default, in force while subscribe() runs (the worker itself raises it to 3000)
@@ -65,8 +66,8 @@ RULE = ("cases = (source, scheduler configuration, carrier, terminator) shapes f
         "%d carriers x %d terminators (%d shapes; quick = seeded sample of 720, thorough = every shape once plus two more parameter draws of every shape whose scheduler is default / the CurrentThreadScheduler singleton), parameters "
         "(start/step/cycle list, element-wise chain, counts, target value of the predicate) drawn from "
         "case_rng(seed, id, idx) and rejected until the LIST model terminates after <= %d source elements. Verdict per "
-        "case: subscribe() must return, before the source produced more than needed + %d elements and before %d LINE "
-        "events, with exactly the elements list semantics gives, and nothing may be produced after it returned. "
+        "case: subscribe() must return, before the source produced more than needed + %d elements and before %d steps "
+        "(PY_START + JUMP monitoring events), with exactly the elements list semantics gives, and nothing may be produced after it returned. "
         "non-trivial = the model needs >= 1 source element; distinct = digest of (shape, parameters). "
         "Violations are keyed by mechanism: 'C14:inline-producer:<source family>:<scheduler config>' when the elements "
         "were being produced while an Observable.subscribe() was still setting up its subscription (the scheduler ran "
@@ -81,8 +82,9 @@ RULE = ("cases = (source, scheduler configuration, carrier, terminator) shapes f
         "take_until_with_time and the other timed terminators need time and are not part of this property."
         % (len(CARRIERS), len(TERMINATORS), len(SHAPES), MAX_NEEDED, SLACK, STEP_BUDGET))
 ASSUMPTIONS = [
-    "sys.monitoring (PEP 669) delivers a LINE event for every executed line of Python code and propagates an "
-    "exception raised by the callback into the monitored code (self-checked in every unit)",
+    "sys.monitoring (PEP 669) delivers a PY_START event for every Python function entry and a JUMP event for every loop "
+    "back-edge, and propagates an exception raised by the callback into the monitored code (self-checked in every unit "
+    "with a call-free spinning loop)",
     "a run in which the producer is stopped by a RecursionError that the library swallows (range/generate/repeat under "
     "ImmediateScheduler recurse once per element) and subscribe() nevertheless returns within the pull budget with the "
     "right elements is counted as an observation (stopped_only_by_recursion_limit), not as a violation: DESIGN.md fixes "
@@ -172,9 +174,16 @@ class _CountingIterator:
 
 
 class StepMonitor:
-    """LINE-event counter with a logical budget. One instance per process."""
+    """Step counter with a logical budget: PY_START (every Python function entry) + JUMP (every loop back-edge) events.
+
+    LINE events are deliberately not used for RAISING: a LINE event also fires on the `with` line when a with-block is
+    left normally, i.e. after the body's exception table entry ended and before `__exit__` ran; an exception injected
+    there leaks the lock (observed: Trampoline.run's `finally: with self._lock` dead-locked).  An exception injected at a
+    function entry behaves like the call raising, one injected at a loop back-edge is inside whatever block encloses the
+    loop; both are points where ordinary exceptions can occur.  One instance per process."""
 
     _instance: Any = None
+    GRACE = 20_000      # events granted to the unwinding code (finally blocks of the trampoline) before raising again
 
     @classmethod
     def get(cls) -> "StepMonitor":
@@ -187,18 +196,27 @@ class StepMonitor:
         self.tool = self.mon.PROFILER_ID
         if self.mon.get_tool(self.tool) is None:
             self.mon.use_tool_id(self.tool, "vf-c14-steps")
+        ev = self.mon.events
+        self.events = ev.PY_START | ev.JUMP | ev.RAISE
         self.n = 0
         self.limit = 10 ** 12
         self.trips = 0
         self.recursion_errors = 0
-        self.mon.register_callback(self.tool, self.mon.events.LINE, self._line)
-        self.mon.register_callback(self.tool, self.mon.events.RAISE, self._raise)
+        self.mon.register_callback(self.tool, ev.PY_START, self._start)
+        self.mon.register_callback(self.tool, ev.JUMP, self._jump)
+        self.mon.register_callback(self.tool, ev.RAISE, self._raise)
 
-    def _line(self, code: Any, line: int) -> None:
+    def _start(self, code: Any, offset: int) -> None:
+        self.n += 1
+        if self.n > self.limit and code.co_name not in ("__exit__", "__enter__", "__del__"):
+            self.limit = self.n + self.GRACE
+            self.trips += 1
+            raise BudgetExceeded("steps", self.n)
+
+    def _jump(self, code: Any, offset: int, dest: int) -> None:
         self.n += 1
         if self.n > self.limit:
-            # raise once, then give the unwinding code (finally blocks of the trampoline) room before raising again
-            self.limit = self.n + 100_000
+            self.limit = self.n + self.GRACE
             self.trips += 1
             raise BudgetExceeded("steps", self.n)
 
@@ -211,7 +229,7 @@ class StepMonitor:
         self.limit = budget
         self.trips = 0
         self.recursion_errors = 0
-        self.mon.set_events(self.tool, self.mon.events.LINE | self.mon.events.RAISE)
+        self.mon.set_events(self.tool, self.events)
 
     def stop(self) -> int:
         self.mon.set_events(self.tool, 0)
@@ -735,8 +753,8 @@ def execute(obs: Any, ssched: Any, pulls: Pulls, needed: int, step_budget: int =
          "recursion_errors": steps.recursion_errors, "inline_first": pulls.inline_first,
          "inline_last": pulls.inline_last,
          "late_pulls": 0, "late_out": 0, "trampoline_idle": trampoline_idle()}
-    if not r["trampoline_idle"]:
-        repair_trampoline()
+    if not r["trampoline_idle"] or outcome != "returned":
+        repair_trampoline()     # an injected exception may have interrupted the trampoline's own clean-up
     if outcome == "returned":
         n_out = len(out)
         if disp is not None:
@@ -764,7 +782,7 @@ def compare(case: dict, out: list) -> Any:
     return None
 
 
-def run_case(seed: int, idx: int, res: UnitResult) -> None:
+def run_case(seed: int, idx: int, res: UnitResult) -> dict:
     case = gen_case(seed, idx)
     family = FAMILY[case["source"]]
     pulls = Pulls(family)
@@ -778,13 +796,13 @@ def run_case(seed: int, idx: int, res: UnitResult) -> None:
     config = case["config"]
     res.case(key=desc, nontrivial=needed >= 1,
              sample={"case": desc, "needed_source_elements": needed, "expected": show(case["expected"]) , "terminal": case["terminal"],
-                     "outcome": r["outcome"], "pulled": r["pulls"], "line_events": r["steps"], "observed": show_out(r["out"])})
+                     "outcome": r["outcome"], "pulled": r["pulls"], "steps": r["steps"], "observed": show_out(r["out"])})
     res.note("sources", case["source"])
     res.note("terminators", case["term"])
     res.note("carriers", case["carrier"])
     res.note("sched_configs", config)
     res.note("source_x_sched_config", case["source"] + "|" + config)
-    res.count("line_events_total", r["steps"])
+    res.count("steps_total", r["steps"])
     res.count("source_elements_needed_total", needed)
     if r["inline_first"] or r["inline_last"]:
         res.count("produced_during_subscription_setup")
@@ -798,7 +816,7 @@ def run_case(seed: int, idx: int, res: UnitResult) -> None:
         kind, why = "not-cancelled", "source produced more than needed + %d elements; subscribe() had not returned" % SLACK
         res.count("pull_budget_trips")
     elif r["outcome"] == "budget:steps":
-        kind, why = "no-return", "subscribe() did not return within %d LINE events" % STEP_BUDGET
+        kind, why = "no-return", "subscribe() did not return within %d steps (function entries + loop back-edges)" % STEP_BUDGET
         res.count("step_budget_trips")
     elif r["outcome"] == "raised":
         kind, why = "raised", "subscribe() raised %s instead of returning" % show(r["exc"])
@@ -822,18 +840,19 @@ def run_case(seed: int, idx: int, res: UnitResult) -> None:
             res.note("recursion_limit_stops", family + ":" + config)
         elif over > 8:
             res.note("large_overshoot_without_recursion_error", "%s:%s:%s:%s" % (family, config, case["carrier"], case["term"]))
-        return
+        return r
     inline = r["inline_last"]
     if inline:
         mech = "C14:inline-producer:%s:%s" % (family, config)
     else:
         mech = "C14:%s:%s:%s:%s:%s" % (kind, family, config, case["carrier"], case["term"])
     res.violation(mech, {"why": why, "case": desc, "needed_source_elements": needed, "pulled": r["pulls"],
-                         "line_events": r["steps"], "produced_during_subscription_setup": bool(inline),
+                         "steps": r["steps"], "produced_during_subscription_setup": bool(inline),
                          "recursion_errors_raised": r["recursion_errors"],
                          "expected": show(case["expected"]) , "expected_terminal": case["terminal"],
                          "observed_so_far": show_out(r["out"])},
                   {"seed": seed, "idx": idx})
+    return r
 
 
 # --------------------------------------------------------------------------------------------------------------------
